@@ -1217,6 +1217,94 @@ def r_retry(ctx) -> RuleResult:
     return res
 
 
+# --------------------------------------------------------------------------- R-PERMSAMPLE
+
+
+@rule("R-PERMSAMPLE")
+def r_permsample(ctx) -> RuleResult:
+    """sample semantics of the permutation helper: it is followed on small sample molecules whose labels are not 0..n-1, with
+    one possible outcome of the random draws.  Judged is only what must hold for every outcome: the result lives on the
+    argument's labels, is isomorphic to it with all atom and bond data, lists its atoms in label order, and the argument is
+    as it was.  Reported when every path ends wrong; what the evaluator cannot follow is skipped."""
+    res = RuleResult("R-PERMSAMPLE", "permutation helper, on sample molecules with labels other than 0..n-1: same label set, isomorphic with all atom and bond data, atoms in label order, argument unchanged")
+    import copy
+    import itertools
+    from ..concrete import PState, SampleGraph, SampleNx, SampleRandom
+    from .common import sample_evaluator
+    fi = entry(ctx, "permute")
+    ps = params_of(fi.node)
+    const = lambda n_: ctx.repo.const("tucan.graph_attributes", n_)  # noqa: E731
+    SYM, CHG_, MASS_, BT = const("ELEMENT_SYMBOL"), const("CHG"), const("MASS"), const("BOND_TYPE")
+
+    def make(nodes, edges):
+        g = SampleGraph()
+        for n_, d_ in nodes:
+            g.add_node(n_, **d_)
+        for a_, b_, t_ in edges:
+            g.add_edge(a_, b_, **{BT: t_})
+        return g
+    samples = [
+        ("a formate-like fragment labelled 3, 7, 10, 12 (a component taken out of a larger graph)",
+         [(3, {SYM: "C"}), (7, {SYM: "O", CHG_: -1}), (10, {SYM: "H", MASS_: 2}), (12, {SYM: "O"})], [(3, 7, 1), (3, 10, 1), (3, 12, 2)]),
+        ("hydrogen peroxide numbered from 1 as in a molfile", [(1, {SYM: "H"}), (2, {SYM: "O"}), (3, {SYM: "O"}), (4, {SYM: "H", MASS_: 3})], [(1, 2, 1), (2, 3, 1), (3, 4, 1)]),
+        ("water listed as 2, 0, 1", [(2, {SYM: "O"}), (0, {SYM: "H"}), (1, {SYM: "H", MASS_: 2})], [(2, 0, 1), (2, 1, 1)]),
+    ]
+
+    def iso(a: SampleGraph, b: SampleGraph) -> bool:
+        an, bn = list(a._nodes), list(b._nodes)
+        if len(an) != len(bn):
+            return False
+        ae = {frozenset((x, y)): d for x, y, d in a._edge_list()}
+        be = {frozenset((x, y)): d for x, y, d in b._edge_list()}
+        if len(ae) != len(be):
+            return False
+        for perm in itertools.permutations(bn):
+            f = dict(zip(an, perm))
+            if all(a._nodes[x] == b._nodes[f[x]] for x in an) and all(frozenset(f[x] for x in e_) in be and be[frozenset(f[x] for x in e_)] == d for e_, d in ae.items()):
+                return True
+        return False
+    n = 0
+    for what, nodes, edges in samples:
+        pe, env = sample_evaluator(ctx, fi, {"nx": SampleNx(), "random": SampleRandom()})
+        g = make(nodes, edges)
+        before = copy.deepcopy((g._nodes, {k: dict(v) for k, v in g._adj.items()}))
+        e = dict(env)
+        e[ps[0]] = g
+        for p_ in ps[1:]:
+            e.setdefault(p_, 0.42)
+        del pe.gaps[:]
+        try:
+            falls, lefts = pe.block(fi.node.body, [PState(e)])
+        except (NameError, UnboundLocalError):
+            raise
+        except Exception as ex:
+            res.inst(fi.fq, f"sample: {what}", "ok", detail=f"not followed by the sample evaluator ({type(ex).__name__})")
+            continue
+        outs = [v for _s, how, v in lefts if how == "return"]
+        if pe.gaps or falls or len(outs) != len(lefts) or not outs or not all(isinstance(v, SampleGraph) for v in outs):
+            res.inst(fi.fq, f"sample: {what}", "ok", detail="not followed by the sample evaluator" + (f": {pe.gaps[0]}" if pe.gaps else ""))
+            continue
+        n += 1
+        problems = []
+        for v in outs:
+            if set(v._nodes) != set(g._nodes):
+                problems.append(f"the result's labels are {sorted(v._nodes, key=repr)}, the argument's are {sorted(g._nodes, key=repr)}")
+            elif not iso(g, v):
+                problems.append("the result is not the argument under a renaming of its atoms: an atom or bond attribute, or a bond, is not carried along")
+            elif list(v._nodes) != sorted(v._nodes):
+                problems.append(f"the result lists its atoms as {list(v._nodes)}, not in label order")
+            elif (g._nodes, {k: dict(x) for k, x in g._adj.items()}) != before:
+                problems.append("the argument is changed by the call")
+        bad = len(problems) == len(outs)
+        res.inst(fi.fq, f"sample: {what}", "fail" if bad else "ok", detail=problems[0] if bad else "")
+        if bad:
+            res.fail(Finding("R-PERMSAMPLE", fi.module.rel, fi.qualname, f"sample: {what}",
+                             f"following the permutation helper on a sample molecule ({what}), whatever the draw: {problems[0]}", line=fi.node.lineno))
+    res.counts = {"samples": n}
+    res.trusted = ["the sample evaluator's models of networkx and of one outcome of the random draws (concrete.py)"]
+    return res
+
+
 # --------------------------------------------------------------------------- R-CARRY / R-LABELORDER
 
 
